@@ -468,7 +468,9 @@ UNITS = {
     "C07": [unit_supports("C07", "tri"), unit_supports("C07", "fbank"), _lazy("contracts.purity", "unit_purity", "C07")],
     "C03": [unit_si("C03", w) for w in ("chunk", "handle_skip", "preamble", "finalize", "full", "geometry", "supports")] + [unit_si_frame("C03", w) for w in ("fill", "frame", "dft", "idft")],
     "C13": [_lazy("contracts.shorten", "unit_bit_reader", "C13"), _lazy("contracts.shorten_block", "unit_block", "C13"),
-            _lazy("contracts.shorten_block", "unit_fix", "C13"), _lazy("contracts.shorten_block", "unit_div", "C13")],
+            _lazy("contracts.shorten_block", "unit_fix", "C13"), _lazy("contracts.shorten_block", "unit_div", "C13"),
+            _lazy("contracts.shorten_block", "unit_setup", "C13"), _lazy("contracts.shorten_block", "unit_loop", "C13"),
+            _lazy("contracts.shorten_block", "unit_header", "C13"), _lazy("contracts.shorten_block", "unit_word_get", "C13")],
     "C11": [unit_read_signal("C11", "dispatch"), unit_read_signal("C11", "wds"), unit_read_signal("C11", "infer"), unit_readers("C11")],
     "C16": [unit_std("C16", "accumulate_vector"), unit_std("C16", "apply_vector"), unit_std("C16", "have_stats"), unit_std_tensor("C16"), unit_std_apply_tensor("C16")],
     "C17": [unit_std("C17", "accumulate_vector"), _lazy("contracts.standardize", "unit_sanitize_accepts_saved", "C17"), unit_readers("C17")],
